@@ -20,13 +20,13 @@ func init() {
 		cr.absorb(jobs, res)
 		// contract validation against real kyber: every kind of deviation (and the honest case) natively, n=2
 		if len(cr.fails) == 0 {
-			for k := 0; k < 7; k++ {
+			for k := 0; k < 10; k++ {
 				cr.validateNatively(jobs[0], nil, map[string]int{"dealer1.kind": k})
 			}
 			cr.validateNatively(jobs[1], nil, map[string]int{"dealer1.kind": 0, "dealer2.kind": 3})
 		}
-		cr.samples = append(cr.samples, map[string]interface{}{"deviation_kinds": []string{"honest", "status-false", "decrypt-fail", "commit-differs", "commit-shorter", "bad-signature", "index-outside"}, "configs": cfgs})
-		cr.explanation = "dc4bc's share of C11: dkg.(*DKG).ProcessDeals/processDealCommits/StoreDeal/StoreCommits/InitDKGInstance executed from SSA; every non-victim participant is a dealer of a chosen kind (honest, inconsistent share, undecryptable deal, deal committing to other coefficients than broadcast, broadcast commitments of wrong length, bad dealer signature, index outside the list); kyber's verdicts are inputs of the stubs. Obligations: any deviation => ProcessDeals fails (=> the airgapped machine publishes the *_canceled_by_error event; that this cancels the round on every node and that a cancelled round never becomes signing-ready is C05), and success => every deal was consistent. Every kind is additionally executed natively against real kyber (n=2) on each run."
+		cr.samples = append(cr.samples, map[string]interface{}{"deviation_kinds": []string{"honest", "status-false", "decrypt-fail", "commit-differs", "commit-shorter", "bad-signature", "index-outside", "commit-missing", "commit-empty", "commit-longer"}, "configs": cfgs})
+		cr.explanation = "dc4bc's share of C11: dkg.(*DKG).ProcessDeals/processDealCommits/StoreDeal/StoreCommits/InitDKGInstance executed from SSA; every non-victim participant is a dealer of a chosen kind (honest, inconsistent share, undecryptable deal, deal committing to other coefficients than broadcast, broadcast commitments of wrong length (shorter, longer, empty, never broadcast), bad dealer signature, index outside the list); kyber's verdicts are inputs of the stubs. Obligations: any deviation => ProcessDeals fails (=> the airgapped machine publishes the *_canceled_by_error event; that this cancels the round on every node and that a cancelled round never becomes signing-ready is C05), and success => every deal was consistent. Every kind is additionally executed natively against real kyber (n=2) on each run."
 		cr.bounds["configurations"] = fmt.Sprintf("%v (n,t); every combination of dealer kinds", cfgs)
 		cr.bounds["outside"] = "VSS soundness itself (that kyber's ProcessDeal/DecryptDeal detect what they claim); the airgapped handler around ProcessDeals (ECIES decryption, JSON of deals) and writeErrorRequestToOperation; responses with complaints (ProcessResponses)"
 		cr.assume = append(cr.assume, "kyber contracts of engine/intrin_kyber_dkg.go (NewDistKeyGenerator, ProcessDeal, Verifiers, DecryptDeal, Point.Equal)")
